@@ -1,10 +1,17 @@
 #!/bin/sh
 # usage: tools/seedtest.sh <seed-name> <PID> [tier]   — apply a seeded change to /repo, run the check, undo.
+# Evidence and regenerated Gen tables of the unchanged tree are saved and restored, so a seed test never leaves
+# the mutated tree's tables or evidence behind.
 cd /verif
+rm -rf .build/seed_backup; mkdir -p .build/seed_backup
+cp -r evidence .build/seed_backup/evidence 2>/dev/null
+cp -r lean/TlsModel/Gen .build/seed_backup/Gen
 git -C /repo apply /verif/seeded/$1/patch.diff || exit 9
 ./check $2 --tier ${3:-quick} > /verif/.build/seedtest.out 2>&1
 rc=$?
 git -C /repo checkout -- .
+rm -rf evidence; cp -r .build/seed_backup/evidence evidence 2>/dev/null
+for f in .build/seed_backup/Gen/*.lean; do cmp -s $f lean/TlsModel/Gen/$(basename $f) || cp $f lean/TlsModel/Gen/$(basename $f); done
 grep -E "^VIOLATION|^KNOWN|^MACHINERY|^C[0-9]+ " /verif/.build/seedtest.out | cut -c1-300 | head -8
 echo "seed=$1 check=$2 rc=$rc"
 exit $rc
